@@ -515,3 +515,15 @@ Proof.
   destruct (path_segments_session_eval dbg u ops u' W Hsl Hhead Hops H) as (P & -> & HP).
   exact (proj2 (plain_result dbg u P W Ha Hnm (proj1 HP)) Hss).
 Qed.
+
+(* the four layouts are exhaustive *)
+Lemma path_layouts u : wf_b u = true ->
+  has_authority_b u = true \/ noauth_slash_path u \/ is_opaque_b u = true \/ marker_path u.
+Proof.
+  intros W. destruct (has_authority_b u) eqn:Ha; [left; reflexivity|]. right.
+  destruct (nf_ps (wf_noauth_facts u W Ha)) as [E|(E & _)].
+  - destruct (byte_eqb (ser u) (scheme_end u + 1) 47) eqn:Hb.
+    + left. split; [exact Ha|]. split; [exact Hb | exact E].
+    + right. left. unfold is_opaque_b. rewrite Hb. reflexivity.
+  - right. right. split; [exact Ha | exact E].
+Qed.
